@@ -168,7 +168,11 @@ class ZConfigParser:
 
     def handle_include(self, section, rest):
         rest = self.replace(rest.strip())
-        newurl = ZConfig.url.urljoin(self.url, rest)
+        try:
+            newurl = ZConfig.url.urljoin(self.url, rest)
+        except ValueError as e:
+            # urllib refuses a malformed URL ("http://[::1") this way
+            self.error(f"invalid URL in %include: {e}")
         self.context.includeConfiguration(section, newurl, self.defines)
 
     def handle_define(self, section, rest):
